@@ -89,6 +89,8 @@ def param_pools(model, owner, func, cls):
         ann_s = kinds.get(n) or (ann if isinstance(ann, str) else (ann.__name__ if inspect.isclass(ann) else str(ann)))
         if getattr(cls, 'gen_' + n, None) is not None:
             pools.append(list(getattr(cls, 'gen_' + n)(model)))
+        elif n == 'cls' and owner is not None:
+            pools.append([owner])
         elif n == 'self':
             oname = owner.__name__
             if oname == 'Relation':
